@@ -297,6 +297,8 @@ def xarray_reduce(
     )
     if needs_broadcast:
         ds_broad = xr.broadcast(ds, *by_da, exclude=exclude_dims)[0]
+        # broadcasting orders every variable like the Dataset; keep each variable's own dimension order
+        ds_broad = ds_broad.map(lambda var: var.transpose(*ds[var.name].dims, ...), keep_attrs=True)
     else:
         ds_broad = ds
 
